@@ -184,6 +184,11 @@ def add_observations(crate, project, ptable, rng, max_keys=40):
                     chain = "let s = scope_locale!(%s, %s); " % (lv, idents[0]) + "".join("let s = scope_locale!(s, %s); " % i for i in idents[1:])
                     b.append('    { %slet v = td!(s, %s%s); emit(%d, "scope_locale:chained", &html(v)); }' % (chain, last, V, oid))
                     flavours.append("scope_locale:chained")
+                # every other locale: string against view flavour (a locale without its own value takes both from the same place)
+                for l2 in locales:
+                    if l2 != loc:
+                        b.append('    { emit(%d, "pl_s:%s", &td_string!(Locale::%s, %s%s).to_string()); emit(%d, "pl_v:%s", &html(td!(Locale::%s, %s%s))); }' % (
+                            oid, l2, e2e.ident(l2), kp, S, oid, l2, e2e.ident(l2), kp, V))
                 # the other argument syntaxes of the t! family: bare `name` / `<comp>` (a variable of that name in scope), and
                 # `<comp> = <tag attrs />` against the closure it stands for
                 if args or cvals or allc:
@@ -248,6 +253,15 @@ def judge(res, crate, obs):
                                "expect": {k: v for k, v in exp.items() if k != "rnodes"}, "format": crate.fmt})
             else:
                 res.sample({"locale": exp["locale"], "key": ".".join(exp["path"]), "flavour": fl, "text": text}, limit=8)
+        for fl, o in got.items():
+            if fl.startswith("pl_s:"):
+                res.ev()
+                res.count("flavour:per-locale-string-vs-view")
+                v = got.get("pl_v:" + fl[5:])
+                vt = e2e.normalise_html(v["v"]) if v else "<<no observation>>"
+                if o["v"] != vt:
+                    res.violation("C02/flavour-differs/per-locale", "crate=%s key=%s locale=%s: td_string %r, td %r" % (crate.name, ".".join(exp["path"]), fl[5:], o["v"], vt),
+                                  {"project": gen.project_to_jsonable(crate.project), "locale": fl[5:], "expect": {k: v for k, v in exp.items() if k != "rnodes"}})
         if "direct_comp:tag" in got or "direct_comp:closure" in got:
             res.ev()
             res.count("flavour:direct_comp")
